@@ -162,3 +162,37 @@ Theorem psqfree_correct_holds : psqfree_correct_premise R.
 Proof. exact: psqfree_correct. Qed.
 
 End Sqfree.
+
+(* ---------------------------------------------------------------- the operations, conditional ONLY on the interval Sturm count *)
+Section Final.
+Variable R : rcfType.
+Hypothesis count_open_correct : count_open_correct_premise R.
+Local Notation rn_denotes := (@rn_denotes R).
+Let sq := @psqfree_correct_holds R.
+
+Theorem rn_add_spec_sturm (fuel : nat) (x y z : rnum) (a b : R) :
+  rn_denotes x a -> rn_denotes y b -> rn_add fuel x y = Some z -> rn_denotes z (a + b).
+Proof. exact: rn_add_spec_cond count_open_correct sq _ _ _ _ _ _. Qed.
+
+Theorem rn_sub_spec_sturm (fuel : nat) (x y z : rnum) (a b : R) :
+  rn_denotes x a -> rn_denotes y b -> rn_sub fuel x y = Some z -> rn_denotes z (a - b).
+Proof. exact: rn_sub_spec_cond count_open_correct sq _ _ _ _ _ _. Qed.
+
+Theorem rn_mul_spec_sturm (fuel : nat) (x y z : rnum) (a b : R) :
+  rn_denotes x a -> rn_denotes y b -> rn_mul fuel x y = Some z -> rn_denotes z (a * b).
+Proof. exact: rn_mul_spec_cond count_open_correct sq _ _ _ _ _ _. Qed.
+
+(* the inverse does not use the Sturm count at all *)
+Theorem rn_inv_spec (fuel : nat) (x z : rnum) (a : R) :
+  rn_denotes x a -> rn_inv fuel x = Some z -> a != 0 /\ rn_denotes z a^-1.
+Proof. exact: rn_inv_spec_cond sq _ _ _ _. Qed.
+
+Theorem rn_div_spec_sturm (fuel : nat) (x y z : rnum) (a b : R) :
+  rn_denotes x a -> rn_denotes y b -> rn_div fuel x y = Some z -> b != 0 /\ rn_denotes z (a / b).
+Proof. exact: rn_div_spec_cond count_open_correct sq _ _ _ _ _ _. Qed.
+
+Theorem rn_pow_spec_sturm (fuel : nat) (x z : rnum) (a : R) (n : nat) :
+  rn_denotes x a -> rn_pow fuel x n = Some z -> rn_denotes z (a ^+ n).
+Proof. exact: rn_pow_spec_cond count_open_correct sq _ _ _ _ _. Qed.
+
+End Final.
